@@ -305,4 +305,98 @@ theorem encChar_no_markup (kq cond : Bool) (c : Char) :
     · simp only [List.mem_singleton]; intro h; apply h4; simp [← h, hk]
     · simp only [List.mem_singleton]; intro h; apply h5; simp [← h, hk]
 
+theorem encChar_noCR (kq cond : Bool) (c : Char) (hc : c ≠ '\r') : '\r' ∉ encChar kq cond c := by
+  have hx : ∀ n, n < 16 → hexDigitUpper n ≠ '\r' := by
+    intro n hn; interval_cases n <;> decide
+  unfold encChar
+  split_ifs with h1 h2 h3 h4 h5 h6
+  · decide
+  · decide
+  · decide
+  · decide
+  · decide
+  · simp only [Bool.and_eq_true, decide_eq_true_eq] at h6
+    have ha := hx (c.toNat / 16) (by omega)
+    have hb := hx (c.toNat % 16) (by omega)
+    simp only [List.mem_cons, List.not_mem_nil, or_false, not_or]
+    exact ⟨by decide, by decide, by decide, fun h => ha h.symm, fun h => hb h.symm, by decide⟩
+  · simp only [List.mem_singleton]; exact fun h => hc h.symm
+
+/-! ### the literal grammar of `scanFloat` -/
+
+theorem takeDigits_append (ds rest : List Char) (hds : ds.all isDigit = true)
+    (hr : ∀ c r, rest = c :: r → isDigit c = false) : takeDigits (ds ++ rest) = (ds, rest) := by
+  induction ds with
+  | nil =>
+    cases rest with
+    | nil => rfl
+    | cons c r => simp [takeDigits, hr c r rfl]
+  | cons d t ih =>
+    simp only [List.all_cons, Bool.and_eq_true] at hds
+    simp [takeDigits, hds.1, ih hds.2]
+
+theorem digit_ne (d c : Char) (hd : isDigit d = true) (hc : isDigit c = false) : d ≠ c := by
+  intro e; subst e; rw [hd] at hc; cases hc
+
+theorem digit_not_space (d : Char) (hd : isDigit d = true) : isSpace d = false := by
+  have h := fun c hc => digit_ne d c hd hc
+  simp [isSpace, h ' ' (by decide), h '\t' (by decide), h '\n' (by decide), h '\x0b' (by decide),
+    h '\x0c' (by decide), h '\r' (by decide)]
+
+theorem takeSign_digit (d : Char) (r : List Char) (hd : isDigit d = true) : takeSign (d :: r) = (false, d :: r) := by
+  have h1 := digit_ne d '+' hd (by decide)
+  have h2 := digit_ne d '-' hd (by decide)
+  unfold takeSign
+  split
+  · rename_i heq; injection heq with e _; exact absurd e h1
+  · rename_i heq; injection heq with e _; exact absurd e h2
+  · rfl
+
+theorem takeExp_stop (mant : Bool) (rest : List Char) (hr : ∀ c r, rest = c :: r → c ≠ 'e' ∧ c ≠ 'E') :
+    takeExp mant rest = ((false, false, false, []), rest) := by
+  cases rest with
+  | nil => rfl
+  | cons c r =>
+    obtain ⟨h1, h2⟩ := hr c r rfl
+    simp [takeExp, h1, h2]
+
+/-- **decimal literal with a fraction**: `_M_extract_float` accumulates exactly `ip.fp` and leaves `rest`, whenever `rest`
+is empty or starts with a character that is neither a digit nor `e`/`E` -/
+theorem scanFloat_decimal (ip fp rest : List Char) (hip : ip ≠ []) (hipd : ip.all isDigit = true)
+    (hfpd : fp.all isDigit = true) (hrest : ∀ c r, rest = c :: r → isDigit c = false ∧ c ≠ 'e' ∧ c ≠ 'E') :
+    scanFloat (ip ++ '.' :: (fp ++ rest)) = (⟨false, ip, fp, false, false, false, []⟩, rest) := by
+  obtain ⟨d, ds, rfl⟩ := List.exists_cons_of_ne_nil hip
+  have hd : isDigit d = true := by simp only [List.all_cons, Bool.and_eq_true] at hipd; exact hipd.1
+  unfold scanFloat
+  rw [List.cons_append, dropWS_nonspace d _ (digit_not_space d hd), takeSign_digit d _ hd]
+  simp only
+  rw [← List.cons_append, takeDigits_append (d :: ds) ('.' :: (fp ++ rest)) hipd
+    (fun c r h => by injection h with e _; rw [← e]; decide)]
+  simp only [takeFrac]
+  rw [takeDigits_append fp rest hfpd (fun c r h => (hrest c r h).1)]
+  simp only [List.isEmpty_cons, Bool.false_and, Bool.not_false]
+  rw [takeExp_stop true rest (fun c r h => (hrest c r h).2)]
+
+/-- **integer-form literal** (no `.`): the same, with `rest` not starting with a digit, `.` or `e`/`E` -/
+theorem scanFloat_integer (ip rest : List Char) (hip : ip ≠ []) (hipd : ip.all isDigit = true)
+    (hrest : ∀ c r, rest = c :: r → isDigit c = false ∧ c ≠ '.' ∧ c ≠ 'e' ∧ c ≠ 'E') :
+    scanFloat (ip ++ rest) = (⟨false, ip, [], false, false, false, []⟩, rest) := by
+  obtain ⟨d, ds, rfl⟩ := List.exists_cons_of_ne_nil hip
+  have hd : isDigit d = true := by simp only [List.all_cons, Bool.and_eq_true] at hipd; exact hipd.1
+  unfold scanFloat
+  rw [List.cons_append, dropWS_nonspace d _ (digit_not_space d hd), takeSign_digit d _ hd]
+  simp only
+  rw [← List.cons_append, takeDigits_append (d :: ds) rest hipd (fun c r h => (hrest c r h).1)]
+  have hfrac : takeFrac rest = ([], rest) := by
+    cases rest with
+    | nil => rfl
+    | cons c r =>
+      have := (hrest c r rfl).2.1
+      unfold takeFrac
+      split
+      · rename_i heq; injection heq with e _; exact absurd e this
+      · rfl
+  simp only [hfrac, List.isEmpty_cons, Bool.false_and, Bool.not_false]
+  rw [takeExp_stop true rest (fun c r h => ⟨(hrest c r h).2.2.1, (hrest c r h).2.2.2⟩)]
+
 end C32
